@@ -352,6 +352,14 @@ class MoleculeResolver:
             if node_to_keep == node_to_remove:
                 continue
             squashed[node_to_remove] = node_to_keep
+            # the bonds taken over from the removed atom take the place of
+            # hydrogen atoms on the remaining one
+            if 'hcount' in self.molecule.nodes[node_to_keep]:
+                taken = sum(order for _, other, order in
+                            self.molecule.edges(node_to_remove, data='order')
+                            if other != node_to_keep)
+                hcount = self.molecule.nodes[node_to_keep]['hcount']
+                self.molecule.nodes[node_to_keep]['hcount'] = max(0, hcount - taken)
             self.molecule = nx.contracted_nodes(self.molecule,
                                                 node_to_keep,
                                                 node_to_remove,
